@@ -205,6 +205,10 @@ def gen_client_program(rng, w, task_idx, calcs, shots, n_ops, raising_calcs, all
                                 "temperature": [-500.0, "Fahrenheit"], "humidity": 0.0})
             prog.append({"op": "mk", "what": "atmo", "world": mw, "warns": True})
             continue
+        kept = [k_ for k_, o in enumerate(prog) if o.get("op") in ("fire", "zero", "elev", "danger", "fire_tmp")]
+        if kept and rng.random() < 0.12:
+            prog.append({"op": "reread", "src": gen.pick(rng, kept)})      # look again at a result object kept earlier
+            continue
         # "repeating it gives bit-identical results": sometimes repeat an earlier computation verbatim
         prev = [o for o in prog if o.get("op") in ("fire", "zero", "elev")]
         if prev and rng.random() < 0.18:
@@ -225,21 +229,23 @@ def gen_client_program(rng, w, task_idx, calcs, shots, n_ops, raising_calcs, all
             if rng.random() < 0.03:
                 op["range"] = [-100.0, "Yard"]              # degenerate request: raises deterministically
             prog.append(op)
-            if op["extra"] and "danger" in allow and rng.random() < 0.6 and len(prog) < n_ops:
-                at = rft * rng.uniform(0.2, 1.3)             # sometimes beyond the trajectory -> ArithmeticError
-                if op.get("step") is not None and rng.random() < 0.45:
-                    # boundary values of "first row with distance >= d": on / just below / just above a recorded row
-                    sft = gen.to_feet(op["step"])
-                    k = rng.randint(1, max(1, int(rft / sft)))
-                    at = max(1.0, k * sft + gen.pick(rng, [0.0, -0.5, 0.5, -1.5, 1.5, -3.0, 3.0, -4.5, 4.5, 1e-6, -1e-6]))
-                if rng.random() < 0.3:
-                    prog.append({"op": "at_dist", "fire": len(prog) - 1, "d": [round(at, 4), "Foot"]})
-                    continue
-                prog.append({"op": "danger", "fire": len(prog) - 1,
-                             "at": [round(at, 4), "Foot"] if rng.random() < 0.5 else
-                             gen.gen_distance_ft(rng, round(at, 1), ("Yard", "Meter", "Foot")),
-                             "height": [round(rng.uniform(0.2, 3.0), 2), gen.pick(rng, ["Meter", "Foot", "Yard"])],
-                             "look": None if rng.random() < 0.7 else gen.gen_angle_deg(rng, 2.0)})
+            fire_idx = len(prog) - 1
+            for _q in range(rng.randint(1, 3) if (op["extra"] and "danger" in allow and rng.random() < 0.6) else 0):
+              if len(prog) < n_ops + 2:
+                    at = rft * rng.uniform(0.2, 1.3)             # sometimes beyond the trajectory -> ArithmeticError
+                    if op.get("step") is not None and rng.random() < 0.45:
+                        # boundary values of "first row with distance >= d": on / just below / just above a recorded row
+                        sft = gen.to_feet(op["step"])
+                        k = rng.randint(1, max(1, int(rft / sft)))
+                        at = max(1.0, k * sft + gen.pick(rng, [0.0, -0.5, 0.5, -1.5, 1.5, -3.0, 3.0, -4.5, 4.5, 1e-6, -1e-6]))
+                    if rng.random() < 0.3:
+                        prog.append({"op": "at_dist", "fire": fire_idx, "d": [round(at, 4), "Foot"]})
+                        continue
+                    prog.append({"op": "danger", "fire": fire_idx,
+                                 "at": [round(at, 4), "Foot"] if rng.random() < 0.5 else
+                                 gen.gen_distance_ft(rng, round(at, 1), ("Yard", "Meter", "Foot")),
+                                 "height": [round(rng.uniform(0.2, 3.0), 2), gen.pick(rng, ["Meter", "Foot", "Yard"])],
+                                 "look": None if rng.random() < 0.5 else gen.gen_angle_deg(rng, gen.pick(rng, [2.0, -1.5, 5.0]))})
         elif kind == "zero":
             # far (mostly unreachable) targets only on coarse calculators: 20+ trial trajectories of several km each
             far = rng.random() < 0.08 and (w["calcs"][c].get("config") or {}).get("max_calc_step_size_feet", 0.5) >= 4.0
